@@ -208,6 +208,10 @@ func (interp *Interpreter) cfg(root *node, sc *scope, importPath, pkgName string
 						sc.add(sc.getType("int"))
 						ktyp = sc.getType("int")
 					}
+					if ktyp == nil {
+						err = o.cfgErrorf("cannot range over %s", o.typ.id())
+						return false
+					}
 
 					kindex := sc.add(ktyp)
 					sc.sym[k.ident] = &symbol{index: kindex, kind: varSym, typ: ktyp}
